@@ -7,7 +7,7 @@ from ..strategies import crystals as cs, vacancy as vs
 
 ID = "C08"
 RULE = ("Hypothesis draws a crystal, percolating vacancy network, Nthermo in {1,2}, random data with omega2 comparable to omega0, and a scale "
-        "r0 in 1e-3..1e6 (log-uniform); all omega2 prefactors are multiplied by r (bFT2 -> bFT2 - ln r).  Oracles: (i) Lij(large_om2=0) "
+        "r0 in 1e-3..1e6 (log-uniform) and a unit of time (every rate x 1, 1e-6, 1e-12 or 1e6); all omega2 prefactors are multiplied by r (bFT2 -> bFT2 - ln r).  Oracles: (i) Lij(large_om2=0) "
         "[large-rate algorithm forced] vs Lij(large_om2=inf) [standard algorithm forced] at r0 agree to (1e-9 + 1e-14 r0) x scale; (ii) the "
         "default call at r in {1e8,1e10,1e12,1e14,1e16} returns finite tensors, symmetric where symmetry is forced; (iii) continuity across "
         "the default switch: at the smallest r of a decade ladder for which default == forced-large and != forced-standard, default and "
@@ -39,7 +39,8 @@ def cases(draw):
     setup.pop("_r13", None)
     data = draw(vs.datasets(calc))
     lr0 = float(np.round(draw(st.floats(-3, 6)), 2))
-    return {"setup": setup, "data": data, "log10_r0": lr0}
+    # unit of time: every rate multiplied by 10^u (the statement is about the exchange rate RELATIVE to the bare rates)
+    return {"setup": setup, "data": data, "log10_r0": lr0, "log10_unit": draw(st.sampled_from([0, 0, -6, -12, 6]))}
 
 
 def scaled(data, r):
@@ -54,8 +55,12 @@ def check(case):
     data = case["data"]
     if not vs.sizes_ok(calc, data):
         raise HarnessError("stale case")
+    u = case.get("log10_unit", 0)
+    if u:
+        sh = -u * np.log(10.)
+        data = dict(data, bFT0=[x + sh for x in data["bFT0"]], bFT1=[x + sh for x in data["bFT1"]], bFT2=[x + sh for x in data["bFT2"]])
     r13 = om2_joins_inequivalent_sites(calc)
-    classes = cs.describe(crys) + vs.describe(calc, data) + (["om2_joins_inequivalent_sites"] if r13 else [])
+    classes = cs.describe(crys) + vs.describe(calc, data) + (["om2_joins_inequivalent_sites"] if r13 else []) + ["time_unit_1e%d" % u]
     if case["setup"].get("redrawn") == "R13":
         classes.append("excluded_R13_redrawn")
     if case["setup"].get("redrawn") == "originstates":
